@@ -171,9 +171,15 @@ struct SetModel {
     feats: Vec<Feat>,
     ctxs: Vec<MCtx>,
     lists: ListState,
+    /// the list contents of every third context (matcher state belongs to the context)
+    lists_alt: ListState,
 }
 
 impl SetModel {
+    fn lists_of(&self, ctx: usize) -> &ListState {
+        if ctx % 3 == 2 { &self.lists_alt } else { &self.lists }
+    }
+
     fn show(&self, only_filters: Option<&[usize]>, only_ctxs: Option<&[usize]>) -> Value {
         let fs: Vec<Value> = self
             .texts
@@ -189,7 +195,7 @@ impl SetModel {
             .filter(|(i, _)| only_ctxs.map(|o| o.contains(i)).unwrap_or(true))
             .map(|(i, c)| json!({"#": i, "values": c.show(&self.recipe.fields)}))
             .collect();
-        json!({"scheme": self.recipe.show(), "filters": fs, "contexts": cs, "lists": show_lists(&self.lists)})
+        json!({"scheme": self.recipe.show(), "filters": fs, "contexts": cs, "lists": show_lists(&self.lists), "lists_of_every_third_context": show_lists(&self.lists_alt)})
     }
 
     fn set_feat(&self) -> Feat {
@@ -372,6 +378,20 @@ fn build_set(ch: &mut Choices<'_>, p: Params) -> SetModel {
     };
     let l1 = leaf(&n0, vec![], list_op(&mut gen_, &MType::Int));
     let l2 = leaf(&b0, vec![], list_op(&mut gen_, &MType::Bytes));
+    // a call of literals only on the left of a list comparison: nothing on its left depends on the
+    // context, the answer still does (the matcher state belongs to the context)
+    let lc = {
+        gen_.need_func("concat");
+        let (mut a, mut b) = (gen_.bytes_lit(false), gen_.bytes_lit(false));
+        // hex pairs cannot be written as call arguments
+        a.form = BytesForm::Quoted(1);
+        b.form = BytesForm::Quoted(2);
+        let mut joined = a.v.clone();
+        joined.extend_from_slice(&b.v);
+        gen_.hints.bytes.push(joined);
+        let op = list_op(&mut gen_, &MType::Bytes);
+        MExpr::Cmp { lhs: MIndex { base: MBase::Call { func: "concat".into(), args: vec![MArg::Lit(MLit::Bytes(a)), MArg::Lit(MLit::Bytes(b))] }, path: vec![] }, op }
+    };
     let w1 = leaf(&b0, vec![], wildcard_op(&mut gen_));
     // map-each
     let me1 = any_of(leaf(&ab0, vec![MIdx::Each], contains_op(&mut gen_)));
@@ -430,6 +450,7 @@ fn build_set(ch: &mut Choices<'_>, p: Params) -> SetModel {
         (bset, "t:in-set-bytes"),
         (l1, "t:in-list"),
         (l2, "t:in-list"),
+        (lc, "t:in-list-literal-call"),
         (w1, "t:wildcard"),
         (me1, "t:map-each"),
         (me2, "t:map-each"),
@@ -458,6 +479,7 @@ fn build_set(ch: &mut Choices<'_>, p: Params) -> SetModel {
         texts.push(print_expr(e, &Style { alias, space }));
     }
     let lists = g::gen_lists(gen_.ch, &recipe, &hints);
+    let lists_alt = g::gen_lists(gen_.ch, &recipe, &hints);
     let mut ctxs: Vec<MCtx> = (0..p.nctx).map(|_| g::gen_ctx(gen_.ch, &recipe, &hints)).collect();
     if let Some((ni, _)) = recipe.field(&n0) {
         for (j, c) in ctxs.iter_mut().enumerate() {
@@ -505,6 +527,7 @@ fn build_set(ch: &mut Choices<'_>, p: Params) -> SetModel {
         feats,
         ctxs,
         lists,
+        lists_alt,
     }
 }
 
@@ -530,7 +553,7 @@ fn parse_all(m: &SetModel) -> Result<Engine, Fail> {
             Err(p) => return Err(Fail::new("parse-panic", format!("filter #{i}: {p}"), m.show(Some(&[i]), Some(&[])))),
         }
     }
-    let ecs = m.ctxs.iter().map(|c| m.recipe.make_ctx(&scheme, c, &m.lists)).collect();
+    let ecs = m.ctxs.iter().enumerate().map(|(i, c)| m.recipe.make_ctx(&scheme, c, m.lists_of(i))).collect();
     Ok(Engine { scheme, asts, ecs })
 }
 
@@ -591,7 +614,7 @@ fn baseline(m: &SetModel, eng: &Engine, filters: &[Arc<Filter>], st: &mut Stats)
                 return Err(Fail::new(sig, format!("sequential execution of filter #{f} on context #{c}: {}", msg.unwrap_or_default()), m.show(Some(&[f]), Some(&[c]))));
             }
             base[f * nctx + c] = code;
-            let env = Env::new(&m.recipe, &m.ctxs[c], &m.lists);
+            let env = Env::new(&m.recipe, &m.ctxs[c], m.lists_of(c));
             match eval::eval_expr(&env, &m.exprs[f]) {
                 Ok(BV::One(w)) => {
                     if w != (code == TRUE) {
